@@ -45,7 +45,10 @@ func runC12DerivedContexts(c *eng.Ctx, next func() (int, bool)) {
 	shapes := []string{"top-level-siblings", "child-siblings", "chain-of-three", "top-level-siblings:nothing-fails", "child-of-the-first:under-the-provider",
 		// a GRANDCHILD on an uncle's context: A > B1, B2; G under B2 created with B1's context (and, so
 		// that the order in which A closes its children does not matter, G' under B1 with B2's)
-		"grandchildren-on-their-uncles-contexts"}
+		"grandchildren-on-their-uncles-contexts",
+		// scopes opened from the provider's ROOT scope (the Scope a singleton constructor receives,
+		// Resolve[godi.Scope](provider)): children of the root scope, still in provider.Close's subtree
+		"root-scope-child-on-the-context-of-a-top-level-scope", "root-scope-children-siblings", "top-level-scope-on-the-context-of-a-root-scope-child"}
 	reps := c.Pick(10, 40)
 	for _, shape := range shapes {
 		for rep := 0; rep < reps; rep++ {
@@ -126,6 +129,36 @@ func runC12DerivedContexts(c *eng.Ctx, next func() (int, bool)) {
 					also.fail = true
 					failing2 = also
 					closeIt, what = a.Close, "grandparent.Close"
+				case "root-scope-child-on-the-context-of-a-top-level-scope":
+					root, rerr := godi.Resolve[godi.Scope](prov)
+					if rerr != nil {
+						panic("derived-context fixture: root scope: " + rerr.Error())
+					}
+					a := must(prov.CreateScope(context.Background()))
+					rc := must(root.CreateScope(a.Context()))
+					res(a).slow = 2 * time.Millisecond
+					failing = res(rc)
+					closeIt = prov.Close
+				case "root-scope-children-siblings":
+					root, rerr := godi.Resolve[godi.Scope](prov)
+					if rerr != nil {
+						panic("derived-context fixture: root scope: " + rerr.Error())
+					}
+					rc1 := must(root.CreateScope(context.Background()))
+					rc2 := must(root.CreateScope(rc1.Context()))
+					res(rc1).slow = 2 * time.Millisecond
+					failing = res(rc2)
+					closeIt = prov.Close
+				case "top-level-scope-on-the-context-of-a-root-scope-child":
+					root, rerr := godi.Resolve[godi.Scope](prov)
+					if rerr != nil {
+						panic("derived-context fixture: root scope: " + rerr.Error())
+					}
+					rc := must(root.CreateScope(context.Background()))
+					b := must(prov.CreateScope(rc.Context()))
+					res(rc).slow = 2 * time.Millisecond
+					failing = res(b)
+					closeIt = prov.Close
 				case "child-of-the-first:under-the-provider":
 					a := must(prov.CreateScope(context.Background()))
 					a1 := must(a.CreateScope(context.Background()))
